@@ -229,7 +229,7 @@ package handlers
 //@   safety
 //@   requires a != nil && a.proxyService != nil && w != nil && r != nil && r.URL != nil && trans != nil && pr != nil && pr.requestLogger != nil && pr.stats != nil
 //@   requires allocated(ghost(w).hdr)
-//@   modifies gvar pxCalls, gvar pxEndpoints, gvar pxPath, gvar pxBody, gvar pxErr, gvar pxStarted, gvar lastEncoded, ghost started, ghost status, ghost hdr, ghost(w).hdr[all], ghost encW, ghost remaining, ghost backing, ports.RequestStats.RoutingDecision, object pr.stats, gvar unflushed, gvar wBytes, pr.hadError
+//@   modifies gvar pxCalls, gvar pxEndpoints, gvar pxPath, gvar pxBody, gvar pxErr, gvar pxStarted, gvar lastEncoded, ghost started, ghost status, ghost hdr, ghost(w).hdr[all], ghost encW, ghost remaining, ghost backing, ports.RequestStats.RoutingDecision, object pr.stats, gvar unflushed, gvar wBytes, pr.hadError, http.Request.Body
 //@   ensures pxCalls == old(pxCalls) + 1 && pxEndpoints == endpoints && pxPath == old(r.URL.Path) && pxBody == old(ghost(r.Body).remaining)
 //@   ensures res == nil ==> ghost(w).started
 //@   ensures !old(ghost(w).started) && ghost(w).started && ghost(w).status >= 400 ==> pr.hadError
@@ -304,7 +304,7 @@ package handlers
 //@ func (a *Application) startProxyGoroutine
 //@   property C05
 //@   trusted
-//@   modifies object streamRecorder, ghost(streamRecorder).started, ghost(streamRecorder).status, ghost(streamRecorder).hdr[all], gvar pxCalls, gvar pxEndpoints, gvar pxPath, gvar pxBody, gvar pxErr, gvar pxStarted, object pr.stats, ports.RequestStats.RoutingDecision, ghost remaining, ghost backing
+//@   modifies object streamRecorder, ghost(streamRecorder).started, ghost(streamRecorder).status, ghost(streamRecorder).hdr[all], gvar pxCalls, gvar pxEndpoints, gvar pxPath, gvar pxBody, gvar pxErr, gvar pxStarted, object pr.stats, ports.RequestStats.RoutingDecision, ghost remaining, ghost backing, http.Request.Body
 //@   ensures res != nil
 
 //@ func (a *Application) handleStreamingPanic
@@ -355,7 +355,7 @@ package handlers
 //@   safety
 //@   requires a != nil && a.proxyService != nil && w != nil && r != nil && trans != nil && pr != nil && pr.requestLogger != nil && pr.stats != nil && ctx != nil
 //@   requires allocated(ghost(w).hdr)
-//@   modifies gvar pxCalls, gvar pxEndpoints, gvar pxPath, gvar pxBody, gvar pxErr, gvar pxStarted, gvar lastEncoded, ghost started, ghost status, ghost hdr, ghost(w).hdr[all], ghost encW, ghost remaining, ghost backing, ports.RequestStats.RoutingDecision, object pr.stats, gvar unflushed, gvar wBytes, pr.hadError, gvar trStreams, gvar evStarted, gvar evOpen, gvar evNext, gvar evDelta, gvar evStopped, gvar evBroken, gvar rBytes, gvar textOut, gvar argsOut, gvar argsIn
+//@   modifies gvar pxCalls, gvar pxEndpoints, gvar pxPath, gvar pxBody, gvar pxErr, gvar pxStarted, gvar lastEncoded, ghost started, ghost status, ghost hdr, ghost(w).hdr[all], ghost encW, ghost remaining, ghost backing, ports.RequestStats.RoutingDecision, object pr.stats, gvar unflushed, gvar wBytes, pr.hadError, gvar trStreams, gvar evStarted, gvar evOpen, gvar evNext, gvar evDelta, gvar evStopped, gvar evBroken, gvar rBytes, gvar textOut, gvar argsOut, gvar argsIn, http.Request.Body
 // C05: unless the translated stream was begun, either an error answer has been written here (no endpoints: 503; the
 // backend's own error status relayed) or the client's writer is untouched and the error is returned to the caller
 //@   ensures trStreams == old(trStreams) || trStreams == old(trStreams) + 1
@@ -456,7 +456,7 @@ package handlers
 //@   property C05
 //@   safety
 //@   requires a != nil && a.proxyService != nil && w != nil && r != nil && r.URL != nil && pr != nil && pr.stats != nil
-//@   modifies gvar pxCalls, gvar pxEndpoints, gvar pxPath, gvar pxBody, gvar pxErr, gvar pxStarted, object w, object pr.stats, ghost(w).started, ghost(w).status, ghost(w).hdr[all], ghost remaining, ghost backing, ports.RequestStats.RoutingDecision
+//@   modifies gvar pxCalls, gvar pxEndpoints, gvar pxPath, gvar pxBody, gvar pxErr, gvar pxStarted, object w, object pr.stats, ghost(w).started, ghost(w).status, ghost(w).hdr[all], ghost remaining, ghost backing, ports.RequestStats.RoutingDecision, http.Request.Body
 //@   ensures pxCalls == old(pxCalls) + 1 && pxEndpoints == endpoints && pxPath == old(r.URL.Path)
 //@   ensures pxErr == res && pxStarted == ghost(w).started
 //@   ensures !ghost(w).started ==> ghost(w).hdr == old(ghost(w).hdr) && len(ghost(w).hdr["Content-Type"]) == old(len(ghost(w).hdr["Content-Type"]))
